@@ -79,13 +79,16 @@ func c12Ops() []roOp {
 			return reAddr.ReplaceAllString(fmt.Sprintf("%v|%s|%+v|%#v", it, it, it, it), "0xADDR")
 		}},
 		{"inspect", func(it, _ ap.Item) string {
-			return fmt.Sprint(ap.IsNil(it), ap.IsObject(it), ap.IsLink(it), ap.IsIRI(it), ap.IsIRIs(it), ap.IsItemCollection(it),
+			return fmt.Sprint(ap.IsNil(it), ap.NotEmpty(it), ap.IsObject(it), ap.IsLink(it), ap.IsIRI(it), ap.IsIRIs(it), ap.IsItemCollection(it),
 				it.GetID(), it.GetType(), it.GetLink(), it.IsObject(), it.IsLink(), it.IsCollection())
 		}},
 		{"DerefItem", func(it, _ ap.Item) string { return fmt.Sprint(len(ap.DerefItem(it))) }},
 		{"lists: DerefItem/IsNil/Contains/Count/IRIs/encoders", func(it, _ ap.Item) string {
 			var b strings.Builder
 			_ = ap.OnObject(it, func(o *ap.Object) error {
+				if o == nil {
+					return nil
+				}
 				for _, l := range []ap.ItemCollection{o.To, o.CC, o.Bto, o.BCC, o.Tag, o.Audience} {
 					if l == nil {
 						continue
@@ -102,12 +105,37 @@ func c12Ops() []roOp {
 		}},
 		{"On*(read)", func(it, _ ap.Item) string {
 			var b strings.Builder
-			_ = ap.OnObject(it, func(o *ap.Object) error { fmt.Fprint(&b, "O:", o.ID, len(o.Name), len(o.To)); return nil })
-			_ = ap.OnActor(it, func(a *ap.Actor) error { fmt.Fprint(&b, "A:", a.ID, len(a.PreferredUsername)); return nil })
-			_ = ap.OnActivity(it, func(a *ap.Activity) error { fmt.Fprint(&b, "Act:", a.ID, ap.IsNil(a.Object)); return nil })
-			_ = ap.OnIntransitiveActivity(it, func(a *ap.IntransitiveActivity) error { fmt.Fprint(&b, "I:", a.ID); return nil })
+			_ = ap.OnObject(it, func(o *ap.Object) error {
+				if o != nil { // a nil-like member of a list reaches the callback as a nil pointer
+					fmt.Fprint(&b, "O:", o.ID, len(o.Name), len(o.To))
+				}
+				return nil
+			})
+			_ = ap.OnActor(it, func(a *ap.Actor) error {
+				if a != nil {
+					fmt.Fprint(&b, "A:", a.ID, len(a.PreferredUsername))
+				}
+				return nil
+			})
+			_ = ap.OnActivity(it, func(a *ap.Activity) error {
+				if a != nil {
+					fmt.Fprint(&b, "Act:", a.ID, ap.IsNil(a.Object))
+				}
+				return nil
+			})
+			_ = ap.OnIntransitiveActivity(it, func(a *ap.IntransitiveActivity) error {
+				if a != nil {
+					fmt.Fprint(&b, "I:", a.ID)
+				}
+				return nil
+			})
 			_ = ap.OnCollectionIntf(it, func(c ap.CollectionInterface) error { fmt.Fprint(&b, "C:", c.Count(), len(c.Collection())); return nil })
-			_ = ap.OnLink(it, func(l *ap.Link) error { fmt.Fprint(&b, "L:", l.Href); return nil })
+			_ = ap.OnLink(it, func(l *ap.Link) error {
+				if l != nil {
+					fmt.Fprint(&b, "L:", l.Href)
+				}
+				return nil
+			})
 			_ = ap.OnItemCollection(it, func(c *ap.ItemCollection) error { fmt.Fprint(&b, "IC:", len(*c)); return nil })
 			return b.String()
 		}},
@@ -133,6 +161,9 @@ func c12Ops() []roOp {
 		{"NaturalLanguageValues", func(it, _ ap.Item) string {
 			var b strings.Builder
 			_ = ap.OnObject(it, func(o *ap.Object) error {
+				if o == nil {
+					return nil
+				}
 				for _, n := range []ap.NaturalLanguageValues{o.Name, o.Summary, o.Content} {
 					j, _ := n.MarshalJSON()
 					t, _ := n.MarshalText()
@@ -146,6 +177,9 @@ func c12Ops() []roOp {
 		{"Recipients-free helpers", func(it, _ ap.Item) string {
 			var b strings.Builder
 			_ = ap.OnObject(it, func(o *ap.Object) error {
+				if o == nil {
+					return nil
+				}
 				fmt.Fprint(&b, o.To.Contains(ap.PublicNS), o.To.Count(), len(o.To.IRIs()), o.Tag.First() == nil)
 				return nil
 			})
@@ -298,6 +332,35 @@ func plantCapacity(it ap.Item) {
 }
 
 func c12Value(c *Ctx, cfg *GenCfg) (T, ap.Item) {
+	// a list as the shared value itself: an IRI list or an item list, by value or by pointer (a pointer to an IRI
+	// list is what a caller holds who wants to append through the collection interface), with the nil-like
+	// entries "" and "-" among the members
+	if c.R.Chance(12) {
+		var l []interface{}
+		for k := c.R.Intn(5); k > 0; k-- {
+			switch c.R.Intn(5) {
+			case 0:
+				l = append(l, "-")
+			case 1:
+				l = append(l, "")
+			default:
+				l = append(l, cfg.nextID("member"))
+			}
+		}
+		var tr T
+		if c.R.Bool() {
+			tr = T{"iris": l, "ptr": c.R.Chance(70)}
+		} else {
+			var il []interface{}
+			for _, s := range l {
+				il = append(il, T{"iri": s})
+			}
+			tr = T{"items": il, "ptr": c.R.Chance(70)}
+		}
+		it := buildItem(tr)
+		plantCapacity(it)
+		return tr, it
+	}
 	typ := allGoTypes[c.R.Intn(len(allGoTypes))]
 	tr := cfg.genNode(c.R, typ, cfg.MaxDepth, false)
 	tr["ptr"] = true
@@ -358,6 +421,9 @@ func c12FreshChild() {
 				}
 				ok := false
 				_ = ap.OnObject(it, func(o *ap.Object) error {
+					if o == nil {
+						return nil
+					}
 					ok = len(o.Name) == 2 && (string(o.Name[0].Ref) == tag || string(o.Name[1].Ref) == tag)
 					return nil
 				})
